@@ -120,7 +120,8 @@ def scenario(w):
     nops = 1 + ch.pick('nops', 12 if w.tier == 'quick' else 30)
     if ch.flag('start_set_up', 1, 2):
         ops.append(('set_up', None))
-    sink_fault = ch.flag('fault.log_sink', 1, 12)
+    sink_fault = ch.flag('fault.log_sink', 1, 8)
+    sink_active = [False]
     for step in range(nops):
         if ops:
             kind, arg = ops.pop(0)
@@ -132,11 +133,20 @@ def scenario(w):
             lf = LOGFILE if ch.flag('set_up.file', 1, 3) else ''
             hist.append('set_up(level=%r%s)' % (lvl, ', file' if lf else ''))
             w.log('op', op='set_up', level=lvl, file=bool(lf))
+            w.disk.disarm()          # a new set_up starts from a healthy disk; the sink may fail again afterwards
             L.set_up(level=lvl, log_file=lf)
             model['console'] = logging.INFO if lvl is None else getattr(logging, lvl)
             model['file'] = bool(lf)
             if sink_fault:
-                w.stdout.fail_at = w.stdout.nwrites + 1 + ch.pick('fault.log_sink.at', 6)
+                how = ch.pick('fault.log_sink.how', 3)
+                if how == 0:      # console writes start failing
+                    w.stdout.fail_at = w.stdout.nwrites + 1 + ch.pick('fault.log_sink.at', 6)
+                elif how == 1:    # the console stream has been closed behind the logger's back
+                    w.stdout.close()
+                    w.fault('log_sink_closed')
+                elif lf:          # the disk under the log file fills up and stays full
+                    w.disk.arm(ch.pick('fault.log_sink.disk_at', 8), 0, sticky=True)
+                sink_active[0] = True
             if not check_level('set_up'):
                 return
         elif kind == 'set_level':
@@ -184,7 +194,10 @@ def scenario(w):
             made_to_raise = flavour in ('invalid', 'converge', 'bad_interp') or fired
             if exc is not None and verbose not in ('absent', None):
                 w.probe('raise_with_override_active')
-            if exc is not None and not made_to_raise:
+            if exc is not None and not made_to_raise and sink_active[0] and isinstance(exc, (OSError, ValueError)):
+                # (e) with a failing log sink a call may fail - but the level obligations below still hold
+                w.probe('call_failed_under_sink_fault')
+            elif exc is not None and not made_to_raise:
                 if ref_exc is not None and type(ref_exc) is type(exc):
                     w.probe('spec_raises_in_pristine_state_too')
                 else:
